@@ -260,6 +260,34 @@ macro_rules! c09_read {
 }
 c09_read!(c09_read_takes_front_1, 1);
 c09_read!(c09_read_takes_front_2, 2);
+// three queued values: the front is taken and the other two keep their order (a head removal that swaps the last element in
+// only shows with three or more)
+vm_harness! {
+    #[kani::unwind(5)]
+    fn c09_read_takes_front_3() {
+        let mut w = mk_thread(chan_prog(), vec![], vec![]);
+        let mut r = mk_thread(chan_prog(), vec![], vec![]);
+        let chw = Value::from(ChannelObject::new(&mut w));
+        let chr = chan_ref(chw).copy(&mut r);
+        let q: [u64; 3] = kani::any();
+        chan_ref(chw).write_value(Value(q[0], ValueTag::Int));
+        chan_ref(chw).write_value(Value(q[1], ValueTag::Float));
+        chan_ref(chw).write_value(Value(q[2], ValueTag::Int));
+        let below = sym_val(ValueTag::Int);
+        r.value_stack.push(below);
+        r.value_stack.push(chr);
+        r.pc.0 = 1;
+        let cont = r.step();
+        assert!(cont && r.error.is_none() && r.pc.0 == 2, "a read on a non-empty channel completes");
+        assert!(r.value_stack.len() == 2 && r.value_stack[1].0 == q[0] && r.value_stack[1].1 == ValueTag::Int, "the FRONT element is received");
+        let data = chan_ref(chw).data.lock().unwrap();
+        assert!(data.len() == 2, "exactly that element was removed");
+        assert!(data[0].0 == q[1] && data[0].1 == ValueTag::Float && data[1].0 == q[2] && data[1].1 == ValueTag::Int, "the rest keeps its order");
+        kani::cover!(true, "req: reachable");
+        std::mem::forget(data);
+        std::mem::forget(w); std::mem::forget(r);
+    }
+}
 vm_harness! {
     #[kani::unwind(4)]
     fn c09_read_empty_blocks_only_reader() {
